@@ -99,16 +99,22 @@ worker has ended unless the timeout elapsed, never after the bound) -/
 def srvObs (ws : List String) : String :=
   if kv ws "skip" == some "ports" then "skipped" else
   let workers := ((kv ws "workers").bind (·.toNat?)).getD 1
-  let timeout := ((kv ws "timeout").bind (·.toNat?)).getD 1
+  -- `timeout=default`: the builder's `shutdown_timeout` is never called; the property speaks of the documented 30 s
+  -- (that the source still says so: `C06.default_shutdown_timeout_is_30s`)
+  let isDefault := kv ws "timeout" == some "default"
+  let timeout := if isDefault then 30 else ((kv ws "timeout").bind (·.toNat?)).getD 1
   let mode : Option Bool := match kv ws "mode" with | some "g" => some true | some "f" => some false | _ => none
-  let second : Option (Option Bool) := match kv ws "second" with
-    | none => some none | some "g" => some (some true) | some "f" => some (some false) | _ => none
-  match mode, (kv ws "holds").bind parseHolds, second with
-  | some g, some holds, some second =>
-    if workers == 0 || workers > 64 || holds.length > 64 || timeout > 10 then "bad-op" else
+  -- further stop() calls (each `gap2` ms after the previous one): in the channel behind the first `Stop`
+  let second : Option (List Bool) := match kv ws "second" with
+    | none => some []
+    | some t => (t.splitOn ",").mapM fun x => match x with | "g" => some true | "f" => some false | _ => none
+  let gap2 : Option Nat := match kv ws "gap2" with | none => some 0 | some g => g.toNat?
+  match mode, (kv ws "holds").bind parseHolds, second, gap2 with
+  | some g, some holds, some second, some gap2 =>
+    if workers == 0 || workers > 64 || holds.length > 64 || (!isDefault && timeout > 10) || second.length > 4 || gap2 > 5000 then "bad-op" else
     let dropFut := kv ws "drop" == some "1"
     let paused := kv ws "paused" == some "1"
-    let calls : List ServerCmd.Call := (if paused then [.pause] else []) ++ [.stop g] ++ (match second with | some g2 => [.stop g2] | none => [])
+    let calls : List ServerCmd.Call := (if paused then [.pause] else []) ++ [.stop g] ++ second.map .stop
     let run := ServerCmd.serve ServerCmd.srcWakeFirst workers calls
     let stopAck := if paused then 1 else 0
     let T := timeout * 1000
@@ -122,11 +128,11 @@ def srvObs (ws : List String) : String :=
     let late := replies.any fun r => r.1 > bound
     let stop := if dropFut then "dropped" else if run.log.contains (.ack stopAck) then "resolved" else "never"
     let server := if run.returned then "resolved" else "never"
-    let sec := match second with
-      | none => "-"
-      | some _ => if run.log.contains (.ack (stopAck + 1)) || run.log.contains (.ackDropped (stopAck + 1)) then "resolved" else "never"
+    let sec := if second.isEmpty then "-" else
+      if (List.range second.length).all fun i => run.log.contains (.ack (stopAck + 1 + i)) || run.log.contains (.ackDropped (stopAck + 1 + i))
+      then "resolved" else "never"
     s!"stop={stop} server={server} second={sec} early={bit early} late={bit late} after=none"
-  | _, _, _ => "bad-op"
+  | _, _, _, _ => "bad-op"
 
 /-- `gate` scenarios (a service whose readiness is switched while the worker is idle), predicted with the
 `Worker` model: one service answering Ready for the first connection and the sweep after it, then
@@ -159,10 +165,17 @@ def faultObs (ws : List String) : String :=
     | none => some none
     | some l => match l.toNat? with | some l => if 1 ≤ l && l ≤ 4 then some (some l) else none | none => none
   let workers : Option Nat := match kv ws "workers" with | none => some 2 | some "1" => some 1 | some "2" => some 2 | _ => none
-  match gapOk, withStop, faults, limit, workers with
-  | true, some st, some fl, some lim, some wk =>
+  -- `pair=1`: at the end one connection per worker, opened and held at the same time: every worker — the replacements
+  -- have the index of the worker they replace (`.restartWorker idx`, `.wake (.worker idx)`) — takes one;
+  -- `dropsrv=1`: the Server future is dropped before the fault: no command loop, nobody restarts anything; the accept thread
+  -- and the live worker go on (C08: the accept thread never dies, the discovering connection is re-routed)
+  let pair : Option Bool := match kv ws "pair" with | none => some false | some "1" => some true | _ => none
+  let dropsrv : Option Bool := match kv ws "dropsrv" with | none => some false | some "1" => some true | _ => none
+  match gapOk, withStop, faults, limit, workers, pair, dropsrv with
+  | true, some st, some fl, some lim, some wk, some pr, some ds =>
     let exact := lim.isNone && wk == 2
-    if st && !exact then "bad-op" else
+    if (st && (!exact || pr)) || (ds && (!exact || st || pr || fl != 1)) then "bad-op" else
+    if ds then "before=12 dropped=1 killed=- later-all-served=1" else
     -- every fault is reported once and the replacement comes up (C08 `restart_creates_replacement`, `replacement_rejoins`):
     -- the command loop handles one `WorkerFaulted` per fault and keeps a handle for every index
     let run := ServerCmd.serve ServerCmd.srcWakeFirst wk ((List.replicate fl (ServerCmd.Call.faulted 0)) ++ (if st then [.stop true] else []))
@@ -174,8 +187,8 @@ def faultObs (ws : List String) : String :=
         let waited := (List.range wk).all fun w => run.log.contains (.awaitWorker w)
         s!" stop={if run.returned then "resolved" else "never"} early={bit (!waited)}"
       else ""
-    head ++ second ++ stop
-  | _, _, _, _, _ => "bad-op"
+    head ++ second ++ (if pr then s!" pair={wk}/{wk}" else "") ++ stop
+  | _, _, _, _, _, _, _ => "bad-op"
 
 def sigObs (ws : List String) : String :=
   if kv ws "skip" == some "ports" then "skipped" else
@@ -234,7 +247,7 @@ def step (st : State) (line : String) : State × String :=
   | "sig" :: _ => (st, sigObs ws)
   | ["k-shape"] =>
     -- structural facts read from the source by T1; the harness prints what C06 demands
-    (st, s!"none-arm-polls-stop={bit Src.wkNoneArmPollsStop} run-breaks-on-stopping={bit Src.srRunBreaksOnStopping} stop-sends-eagerly={bit Src.hsStopSendsEagerly} await-guard={Src.hcAwaitGuard}")
+    (st, s!"none-arm-polls-stop={bit Src.wkNoneArmPollsStop} run-breaks-on-stopping={bit Src.srRunBreaksOnStopping} stop-sends-eagerly={bit Src.hsStopSendsEagerly} await-guard={Src.hcAwaitGuard} mux-hands-on-cmd-rx={bit Src.smMuxHandsOnCmdRx} default-timeout={Src.wcDefaultShutdownSecs} default-conns={Src.wcDefaultMaxConn} builder-starts-from-default={bit Src.sbStartsFromDefaultConfig}")
   | ["k-worker"] =>
     (st, s!"tick-first={Src.wkTickFirstMs} tick-next={Src.wkTickNextMs} init={Src.wcInit}")
   | ["k-timedout", e, t] => match e.toNat?, t.toNat? with
